@@ -56,15 +56,22 @@ import (
 	"encoding/hex"
 	"errors"
 	"fmt"
+	"os"
+	"os/exec"
 	"runtime"
 	"sort"
 	"strconv"
 	"strings"
 	"sync"
 	"testing"
+	"time"
 
+	"github.com/restic/restic/internal/checker"
 	"github.com/restic/restic/internal/data"
+	"github.com/restic/restic/internal/repository"
 	"github.com/restic/restic/internal/restic"
+	"github.com/restic/restic/internal/verifshim/gatebe"
+	"github.com/restic/restic/internal/verifshim/oracle"
 	"github.com/restic/restic/internal/verifshim/vh"
 	"github.com/restic/restic/internal/verifshim/vx"
 	"github.com/restic/restic/internal/verifshim/xplore"
@@ -103,7 +110,8 @@ type verifC42Model struct {
 	tree  map[string]*verifC42Tree
 }
 
-func verifC42DataID(label string) restic.ID { return restic.Hash([]byte("C42 data blob " + label)) }
+func verifC42DataBytes(label string) []byte { return []byte("C42 data blob " + label) }
+func verifC42DataID(label string) restic.ID { return restic.Hash(verifC42DataBytes(label)) }
 
 func verifC42Build(sh *verifC42Shape) *verifC42Model {
 	m := &verifC42Model{sh: sh, id: map[string]restic.ID{}, label: map[restic.ID]string{}, raw: map[string][]byte{}, tree: map[string]*verifC42Tree{}}
@@ -232,6 +240,7 @@ type verifC42Loader struct {
 	out      int
 	lookups  int
 	faulted  map[string]bool // labels whose load delivered a fault (err / missing / garbage / partial)
+	real     restic.Loader   // check mode: answers "ok"/"notfound" are served by this real repository
 	injected map[string]bool // labels answered "err"
 }
 
@@ -251,7 +260,7 @@ func (l *verifC42Loader) LookupBlobSize(h restic.BlobHandle) (uint, bool) {
 	return uint(len(l.m.raw[lab])), true
 }
 
-func (l *verifC42Loader) LoadBlob(_ context.Context, h restic.BlobHandle, _ []byte) ([]byte, error) {
+func (l *verifC42Loader) LoadBlob(ctx context.Context, h restic.BlobHandle, _ []byte) ([]byte, error) {
 	lab, ok := l.m.label[h.ID]
 	if !ok || h.Type != restic.TreeBlob {
 		l.mu.Lock()
@@ -280,6 +289,13 @@ func (l *verifC42Loader) LoadBlob(_ context.Context, h restic.BlobHandle, _ []by
 	case l.m.tree[lab].kind == "missing":
 		l.recs = append(l.recs, verifC42LoadRec{lab, "notfound"})
 		l.faulted[lab] = true
+		if l.real != nil {
+			buf, err := l.real.LoadBlob(ctx, h, nil)
+			if err == nil {
+				return buf, errors.New("C42 fixture: the missing tree exists in the repository")
+			}
+			return nil, err
+		}
 		return nil, &verifC42Err{label: lab, why: "blob not found"}
 	case a == 1:
 		l.recs = append(l.recs, verifC42LoadRec{lab, "err"})
@@ -291,7 +307,86 @@ func (l *verifC42Loader) LoadBlob(_ context.Context, h restic.BlobHandle, _ []by
 	if k := l.m.tree[lab].kind; k == "garbage" || k == "partial" {
 		l.faulted[lab] = true
 	}
+	if l.real != nil {
+		return l.real.LoadBlob(ctx, h, nil)
+	}
 	return append([]byte(nil), l.m.raw[lab]...), nil
+}
+
+// verifC42CheckRepo is a real repository whose LoadBlob is gated (check mode).
+type verifC42CheckRepo struct {
+	*repository.Repository
+	ld *verifC42Loader
+}
+
+func (g *verifC42CheckRepo) LoadBlob(ctx context.Context, h restic.BlobHandle, buf []byte) ([]byte, error) {
+	return g.ld.LoadBlob(ctx, h, buf)
+}
+
+func (g *verifC42CheckRepo) LookupBlobSize(h restic.BlobHandle) (uint, bool) {
+	if lab, ok := g.ld.m.label[h.ID]; ok && h.Type == restic.TreeBlob && g.ld.m.tree[lab].kind == "huge" {
+		return 50*1024*1024 + 1, true
+	}
+	return g.Repository.LookupBlobSize(h)
+}
+
+const verifC42Unref = "unreferenced"
+
+// verifC42Fixture stores the shape in a real repository (one snapshot per root, plus one tree and one
+// data blob that nothing references) and returns the store state.
+func verifC42Fixture(t *testing.T, m *verifC42Model) gatebe.State {
+	ctx := context.Background()
+	repo, store, err := oracle.NewRepo(ctx, 2, repository.Options{})
+	if err != nil {
+		t.Fatal(err)
+	}
+	err = repo.WithBlobUploader(ctx, func(ctx context.Context, up restic.BlobSaverWithAsync) error {
+		seen := map[string]bool{verifC42Unref: true}
+		if _, _, _, err := up.SaveBlob(ctx, restic.DataBlob, verifC42DataBytes(verifC42Unref), restic.ID{}, false); err != nil {
+			return err
+		}
+		uid := verifC42DataID(verifC42Unref)
+		if _, _, _, err := up.SaveBlob(ctx, restic.TreeBlob, []byte(fmt.Sprintf(`{"nodes":[{"name":"u","type":"file","content":["%s"]}]}`+"\n", hex.EncodeToString(uid[:]))), restic.ID{}, false); err != nil {
+			return err
+		}
+		for _, tr := range m.sh.trees {
+			if tr.kind != "missing" {
+				id, _, _, err := up.SaveBlob(ctx, restic.TreeBlob, m.raw[tr.label], restic.ID{}, false)
+				if err != nil {
+					return err
+				}
+				if id != m.id[tr.label] {
+					return fmt.Errorf("tree %s stored under an unexpected id", tr.label)
+				}
+			}
+			for _, e := range tr.ents {
+				for _, b := range e.blobs {
+					if !seen[b] {
+						seen[b] = true
+						if _, _, _, err := up.SaveBlob(ctx, restic.DataBlob, verifC42DataBytes(b), restic.ID{}, false); err != nil {
+							return err
+						}
+					}
+				}
+			}
+		}
+		return nil
+	})
+	if err != nil {
+		t.Fatal(err)
+	}
+	for i, root := range m.sh.roots {
+		sn, err := data.NewSnapshot([]string{"/c42/" + root}, nil, fmt.Sprintf("host%d", i), time.Unix(1600000000+int64(i), 0))
+		if err != nil {
+			t.Fatal(err)
+		}
+		id := m.id[root]
+		sn.Tree = &id
+		if _, err := data.SaveSnapshot(ctx, repo, sn); err != nil {
+			t.Fatal(err)
+		}
+	}
+	return store.Snapshot()
 }
 
 type verifC42Counter struct {
@@ -344,6 +439,11 @@ type verifC42Exec struct {
 	walkErr error
 	maxPend int
 	calls   int // completed top-level calls (find2 / walk)
+	// check mode
+	infra    error
+	treeErrs map[string][]string
+	otherErr []string
+	used     map[string]bool // "tree:<label>" / "data:<label>" of the blobs the checker considers referenced
 }
 
 func (m *verifC42Model) rootIDs(labels []string) restic.IDs {
@@ -361,8 +461,22 @@ func (m *verifC42Model) lab(id restic.ID) string {
 	return "?" + id.Str()
 }
 
-func verifC42Scenario(r *vh.Run, mode string, m *verifC42Model, name string) (xplore.Scenario, func(x *xplore.Exec)) {
+func verifC42Scenario(r *vh.Run, mode string, m *verifC42Model, name string, base gatebe.State) (xplore.Scenario, func(x *xplore.Exec)) {
 	sh := m.sh
+	dataLabels := map[restic.ID]string{verifC42DataID(verifC42Unref): verifC42Unref}
+	for _, t := range sh.trees {
+		for _, e := range t.ents {
+			for _, b := range e.blobs {
+				dataLabels[verifC42DataID(b)] = b
+			}
+		}
+	}
+	dataLabel := func(id restic.ID) string {
+		if l, ok := dataLabels[id]; ok {
+			return l
+		}
+		return "?" + id.Str()
+	}
 	sc := xplore.Scenario{
 		Start: func(x *xplore.Exec) {
 			st := &verifC42Exec{ctr: &verifC42Counter{}, blobs: restic.NewBlobSet(), skipG: map[string]bool{}}
@@ -414,6 +528,54 @@ func verifC42Scenario(r *vh.Run, mode string, m *verifC42Model, name string) (xp
 						st.procs = append(st.procs, p)
 						st.mu.Unlock()
 						return nil
+					})
+				case "check":
+					be := &gatebe.Backend{S: gatebe.NewStoreFrom(base, nil), Proc: "check", Conns: sh.conns, AtomicReplace: true}
+					repo, err := oracle.OpenOn(x.Ctx, be, repository.Options{})
+					if err != nil {
+						st.infra = err
+						break
+					}
+					st.ld.real = repo
+					chk := checker.New(&verifC42CheckRepo{Repository: repo, ld: st.ld}, true)
+					if err := chk.LoadSnapshots(x.Ctx, &data.SnapshotFilter{}, nil); err != nil {
+						st.infra = err
+						break
+					}
+					if hints, errs := chk.LoadIndex(x.Ctx, restic.NoopTerminalCounterFactory); len(hints)+len(errs) > 0 {
+						st.infra = fmt.Errorf("LoadIndex: %v %v", hints, errs)
+						break
+					}
+					errChan := make(chan error)
+					go chk.Structure(x.Ctx, st.ctr, errChan)
+					st.treeErrs = map[string][]string{}
+					for e := range errChan {
+						var te *checker.TreeError
+						if errors.As(e, &te) {
+							for _, ee := range te.Errors {
+								st.treeErrs[m.lab(te.ID)] = append(st.treeErrs[m.lab(te.ID)], ee.Error())
+							}
+						} else {
+							st.otherErr = append(st.otherErr, e.Error())
+						}
+					}
+					unused, err := chk.UnusedBlobs(x.Ctx)
+					if err != nil {
+						st.infra = err
+						break
+					}
+					un := restic.NewBlobSet(unused...)
+					st.used = map[string]bool{}
+					st.err = repo.ListBlobs(x.Ctx, func(pb restic.PackBlob) {
+						h := pb.Handle()
+						if un.Has(h) {
+							return
+						}
+						if h.Type == restic.TreeBlob {
+							st.used["tree:"+m.lab(h.ID)] = true
+						} else {
+							st.used["data:"+dataLabel(h.ID)] = true
+						}
 					})
 				case "walk":
 					for _, root := range sh.roots {
@@ -486,6 +648,8 @@ func verifC42Scenario(r *vh.Run, mode string, m *verifC42Model, name string) (xp
 				verifC42CheckStream(m, st, loads, fail)
 			case "walk":
 				verifC42CheckWalk(m, st, fail)
+			case "check":
+				verifC42CheckCheck(m, st, loads, fail)
 			}
 		}
 		out := mode + ":" + sh.name + ":err=" + strconv.FormatBool(st.err != nil) + ":faults=" + verifC42Keys(ld.faulted)
@@ -665,6 +829,90 @@ func verifC42CheckStream(m *verifC42Model, st *verifC42Exec, loads map[string]in
 	}
 	if len(st.skipG) > 1 {
 		fail("skip-goroutine", "skip was called from %d different goroutines", len(st.skipG))
+	}
+	if n, _ := st.ctr.Get(); int(n) != len(sh.roots) {
+		fail("progress", "progress counter advanced %d times for %d roots", n, len(sh.roots))
+	}
+}
+
+func verifC42CheckCheck(m *verifC42Model, st *verifC42Exec, loads map[string]int, fail func(kind, format string, a ...any)) {
+	ld := st.ld
+	sh := m.sh
+	if st.infra != nil {
+		fail("check-infra", "the checker could not be run: %v", st.infra)
+		return
+	}
+	if st.err != nil {
+		fail("check-infra", "ListBlobs: %v", st.err)
+	}
+	if len(st.otherErr) > 0 {
+		fail("check-error", "Structure reported errors that do not belong to a tree: %v", st.otherErr)
+	}
+	mustT, mustD := m.reach(sh.roots, ld.injected, false)
+	mayT, mayD := m.reach(sh.roots, ld.injected, true)
+	for l, n := range loads {
+		if n > 1 {
+			fail("loaded-twice", "tree %s was loaded %d times", l, n)
+		}
+		if !mayT[l] {
+			fail("unreachable-load", "tree %s was loaded although it is not reachable", l)
+		}
+	}
+	for l := range mustT {
+		if loads[l] != 1 {
+			fail("not-once", "reachable tree %s was loaded %d times, want exactly once", l, loads[l])
+		}
+	}
+	// which trees must be reported
+	faulty := func(l string) bool {
+		t := m.tree[l]
+		if ld.injected[l] || m.bad(l) || t.kind == "partial" {
+			return true
+		}
+		for _, e := range t.ents {
+			if e.nilSub || e.nullSub {
+				return true
+			}
+		}
+		return false
+	}
+	for l := range mustT {
+		if faulty(l) && len(st.treeErrs[l]) == 0 {
+			fail("check-silent", "the checker reported no error for tree %s (kind %q, load failed=%v)", l, m.tree[l].kind, ld.injected[l])
+		}
+	}
+	for l, es := range st.treeErrs {
+		if !mayT[l] || !faulty(l) {
+			fail("check-false-error", "the checker reported errors for the intact tree %s: %v", l, es)
+		}
+	}
+	// the referenced-blob set (complement of UnusedBlobs within the repository)
+	must, may := map[string]bool{}, map[string]bool{}
+	for l := range mustT {
+		if m.tree[l].kind != "missing" {
+			must["tree:"+l] = true
+		}
+	}
+	for l := range mayT {
+		if m.tree[l].kind != "missing" {
+			may["tree:"+l] = true
+		}
+	}
+	for l := range mustD {
+		must["data:"+l] = true
+	}
+	for l := range mayD {
+		may["data:"+l] = true
+	}
+	for k := range must {
+		if !st.used[k] {
+			fail("wrong-set", "the checker considers %s unused although it is reachable (used: {%s})", k, verifC42Keys(st.used))
+		}
+	}
+	for k := range st.used {
+		if !may[k] {
+			fail("wrong-set", "the checker considers %s referenced although it is not reachable (failed loads: %s)", k, verifC42Keys(ld.injected))
+		}
 	}
 	if n, _ := st.ctr.Get(); int(n) != len(sh.roots) {
 		fail("progress", "progress counter advanced %d times for %d roots", n, len(sh.roots))
@@ -871,6 +1119,52 @@ func verifC42Shapes() []verifC42Shape {
 	}
 }
 
+// TestVerifProbe_C42 runs in a child process (see verifC42Probe): the real, ungated checker over the
+// repository fixture of one shape.  A panic in one of StreamTrees' worker goroutines cannot be recovered,
+// so the parent learns about it from the child's output instead of dying itself.
+func TestVerifProbe_C42(t *testing.T) {
+	want := os.Getenv("VERIF_C42_PROBE")
+	if want == "" {
+		t.Skip("helper of TestVerif_C42")
+	}
+	shapes := verifC42Shapes()
+	for i := range shapes {
+		if shapes[i].name != want {
+			continue
+		}
+		m := verifC42Build(&shapes[i])
+		repo, _, err := oracle.Open(context.Background(), verifC42Fixture(t, m), oracle.Password)
+		if err != nil {
+			t.Fatal(err)
+		}
+		res := oracle.Check(context.Background(), repo, false)
+		fmt.Printf("C42PROBE-DONE %d errors: %q\n", len(res.Errors), res.Errors)
+	}
+}
+
+// verifC42Probe reports whether the real checker survives the given shape ("" = it does).
+func verifC42Probe(shape string) string {
+	cmd := exec.Command(os.Args[0], "-test.run", "^TestVerifProbe_C42$", "-test.count", "1", "-test.timeout", "120s")
+	for _, kv := range os.Environ() {
+		if !strings.HasPrefix(kv, "VERIF_") {
+			cmd.Env = append(cmd.Env, kv)
+		}
+	}
+	cmd.Env = append(cmd.Env, "VERIF_C42_PROBE="+shape)
+	out, err := cmd.CombinedOutput()
+	if err == nil && strings.Contains(string(out), "C42PROBE-DONE") {
+		return ""
+	}
+	txt := string(out)
+	if i := strings.Index(txt, "panic:"); i >= 0 {
+		txt = txt[i:]
+	}
+	if len(txt) > 1800 {
+		txt = txt[:1800]
+	}
+	return fmt.Sprintf("child exit: %v\n%s", err, txt)
+}
+
 func TestVerif_C42(t *testing.T) {
 	r := vh.Start(t, "C42")
 	defer r.Finish()
@@ -879,6 +1173,20 @@ func TestVerif_C42(t *testing.T) {
 	// Connections() decides the size of the worker pool: conns + GOMAXPROCS(=1) normal workers + 1 huge-tree worker.
 	connsList := vh.Pick(r, []uint{0}, []uint{1, 2, 3, 5}) // 0 = the shape's own value (1 or 2)
 	shapes := verifC42Shapes()
+	bases := map[string]gatebe.State{}
+	oracle.LowKDF()
+	// The real checker on a tree that becomes undecodable after some valid entries: a panic there would
+	// kill this process, so it is probed in a child process first (every shard needs the answer).
+	checkerDies := verifC42Probe("partial")
+	if checkerDies != "" {
+		if r.Case("probe|check|partial") {
+			r.Eval(1)
+			r.Violation("probe|check|partial", "C42|check-panic|half-decodable-tree",
+				"the checker's tree traversal (checker.Structure = StreamTrees with the checker's callbacks, as `restic check` runs it) dies with an unrecovered panic on a repository that contains a tree whose JSON becomes undecodable after some valid entries (shape \"partial\", tree P):\n"+checkerDies,
+				map[string]any{"shape": "partial", "tree_P": string(verifC42Build(&shapes[7]).raw["P"])})
+		}
+		r.Cap("check mode is skipped for the shapes with a half-decodable tree (partial, allbad): the checker panics there (reported as a violation)")
+	}
 	for i := range shapes {
 		for _, conns := range connsList {
 			sh := shapes[i]
@@ -887,6 +1195,13 @@ func TestVerif_C42(t *testing.T) {
 			}
 			m := verifC42Build(&sh)
 			modes := []string{"find", "stream"}
+			hasPartial := false
+			for _, tr := range sh.trees {
+				hasPartial = hasPartial || tr.kind == "partial"
+			}
+			if !(hasPartial && checkerDies != "") {
+				modes = append(modes, "check")
+			}
 			if len(sh.roots) > 1 {
 				modes = append(modes, "find2")
 			}
@@ -895,7 +1210,14 @@ func TestVerif_C42(t *testing.T) {
 			}
 			for _, mode := range modes {
 				name := fmt.Sprintf("%s|%s|c%d", mode, sh.name, sh.conns)
-				sc, check := verifC42Scenario(r, mode, m, name)
+				var base gatebe.State
+				if mode == "check" {
+					if bases[sh.name] == nil {
+						bases[sh.name] = verifC42Fixture(t, m)
+					}
+					base = bases[sh.name]
+				}
+				sc, check := verifC42Scenario(r, mode, m, name, base)
 				st := vx.Explore(r, t, name, sc, xplore.Options{Policy: xplore.FIFO, Bound: -1, MaxSteps: 300}, check)
 				r.Note("%s: execs(this shard)=%d maxdev=%d max choices at one step=%d", name, st.Execs, st.MaxDev, st.MaxPending)
 			}
